@@ -226,13 +226,17 @@ func c08oracle(d c08desc) (claimed string, why string, own bool) {
 func c08exec(c *h.Ctx, cs *h.Case) {
 	outcome := []string{}
 	for _, op := range cs.Ops {
-		if tk := strings.Fields(op); len(tk) > 2 && tk[0] == "c08" && (tk[1] == "honestcert" || tk[1] == "pair" || tk[1] == "retry") {
+		if tk := strings.Fields(op); len(tk) > 2 && tk[0] == "c08" && (tk[1] == "honestcert" || tk[1] == "pair" || tk[1] == "retry" || tk[1] == "vrf" || tk[1] == "hv") {
 			var obs, note string
 			switch tk[1] {
 			case "honestcert":
 				obs, note = c08honestCert(tk[2:], cs)
 			case "retry":
 				obs, note = c08retry(tk[2:], cs)
+			case "vrf":
+				obs, note = c08vrf(tk[2:], cs)
+			case "hv":
+				obs, note = c08hv(tk[2:], cs)
 			default:
 				obs, note = c08pair(tk[2:], cs)
 			}
@@ -647,6 +651,100 @@ func c08gen(c *h.Ctx, yield func(*h.Case)) {
 			yield(&h.Case{Class: "pair:" + them, Ops: []string{fmt.Sprintf("c08 pair suite=%s them=%s", suite, them)}})
 		}
 	}
+	// the verifier closure called directly (round 5): every row of the table that is about the
+	// certificates, both roles, four suites; the real certificate maker against the real verifier;
+	// random combinations of one to four deviations (no TLS handshake: thousands are cheap)
+	suitesV := []string{"ed", "g1", "g2", "p256"}
+	vemit := func(class string, d c08desc) {
+		if c.TooManyFails() {
+			return
+		}
+		c.Count("class=" + strings.Split(class, ":")[0])
+		c.Count("vrf-role=" + d.role)
+		c.Count("vrf-suite=" + d.suite)
+		yield(&h.Case{Class: class, Ops: []string{c08vrfLine(d)}})
+	}
+	for _, suite := range suitesV {
+		for _, role := range []string{"dial", "accept"} {
+			seen := map[string]bool{}
+			for _, rw := range rows {
+				d, ok := apply(rw, role, suite, "13")
+				if !ok || d.nonce != "ok" || d.live != "none" || d.via != "key" {
+					continue
+				}
+				if l := c08vrfLine(d); !seen[l] {
+					seen[l] = true
+					vemit("vrf:"+rw.name, d)
+				}
+			}
+			for _, nonce := range []string{"cur", "stale", "short"} {
+				thems := []string{"-"}
+				if role == "dial" {
+					thems = []string{"v", "a", "o"}
+				}
+				for _, them := range thems {
+					c.Count("class=hv")
+					yield(&h.Case{Class: "hv:" + role + ":" + nonce, Ops: []string{
+						fmt.Sprintf("c08 hv role=%s suite=%s them=%s nonce=%s", role, suite, them, nonce)}})
+				}
+			}
+		}
+	}
+	{
+		pick := func(l ...string) string { return l[r.Intn(len(l))] }
+		names := []string{"new:v", "new:a", "old:v", "old:a", "new:h", "new:o", "junk", "empty", "newup:v", "newtail:a", "newtail:v", "newup:a"}
+		skipped := 0
+		for i := 0; i < c.Pick(1200, 30000); i++ {
+			role, suite := pick("dial", "accept"), pick(suitesV...)
+			d := honest(role, suite, "13", pick("v", "v", "a"))
+			if role == "dial" {
+				d.them = pick("v", "v", "a", "o")
+			}
+			nd := 1 + r.Intn(4)
+			c.Count(fmt.Sprintf("vrf-deviations=%d", nd))
+			for k := nd; k > 0; k-- {
+				switch r.Intn(9) {
+				case 0:
+					d.uris = pick("none", "new:v", "new:a", "new:v,new:a", "svc@new:v", "http@new:v,new:o", "old:v", "junk", "newup:v", "svc@new:a,new:a")
+				case 1:
+					d.cn = pick(names...)
+				case 2:
+					d.sig = pick("v", "a", "h", "o") + "/" + pick("cur", "cur", "stale", "foreign", "zero") + "/" + pick(names...)
+				case 3:
+					d.sig = pick("none", "junk", "flip")
+				case 4:
+					d.time = pick("expired", "future", "justexpired", "endsoon", "justfuture", "juststarted")
+				case 5:
+					d.signedby = "other"
+				case 6:
+					d.ncerts = r.Intn(4)
+					if r.Intn(2) == 0 {
+						d.ncerts, d.decoy = r.Intn(2), pick("new:v", "new:a", "new:o", "old:v", "junk")
+					}
+				case 7:
+					d.der = pick("bad", "two")
+				case 8:
+					// consistent claim of another key: name, URI and proof move together
+					k := pick("v", "a", "o")
+					st := pick("new", "new", "old", "newup", "newtail")
+					d.cn, d.sig = st+":"+k, k+"/cur/"+st+":"+k
+					if r.Intn(2) == 0 {
+						d.uris = pick("new:"+k, "none")
+					}
+				}
+			}
+			if k, _, own := c08oracle(d); k != "" && !own {
+				// a relay in disguise (the known finding; witnessed for real by the corpus)
+				skipped++
+				i--
+				if skipped > 100000 {
+					break
+				}
+				continue
+			}
+			vemit("vrf-combo", d)
+		}
+	}
 	// fault sequences of the dialling role: the first attempts answered one way, the later ones another
 	kinds := []string{"abort", "badproof", "otherkey", "expired", "honest"}
 	for _, suite := range suitesL {
@@ -752,6 +850,11 @@ func c08gen(c *h.Ctx, yield func(*h.Case)) {
 		strings.Replace(honest("accept", "ed", "12", "v").line(), "sig=v/cur/new:v", "sig=v/now/new:v", 1),
 		strings.Replace(honest("dial", "ed", "12", "v").line(), "them=v", "them=-", 1),
 		honest("dial", "ed", "12", "v").line() + " extra=1",
+		"c08 vrf role=dial", "c08 hv role=dial suite=ed them=- nonce=cur", "c08 hv role=accept suite=ed them=v nonce=cur",
+		strings.Replace(c08vrfLine(honest("dial", "ed", "13", "v")), "suite=ed", "suite=p384", 1),
+		strings.Replace(c08vrfLine(honest("accept", "g1", "13", "v")), "them=-", "them=v", 1),
+		strings.Replace(c08vrfLine(honest("dial", "p256", "13", "v")), "them=v", "them=h", 1),
+		c08vrfLine(honest("dial", "ed", "13", "v")) + " tlsv=13",
 	} {
 		c.Count("class=malformed")
 		yield(&h.Case{Class: "malformed", Ops: []string{l}, Trivial: true})
